@@ -464,6 +464,8 @@ def check(mod, tier):
         ev["coverage"].update(mod.evidence_extra(pr.results))
     os.makedirs(os.path.join(VERIF, "evidence"), exist_ok=True)
     json.dump(ev, open(os.path.join(VERIF, "evidence", mod.ID + ".json"), "w"), indent=1, default=str)
+    if pr.timeouts:
+        print("harness verdict TIMEOUT for runs %s (wall cap %.0fs per run; not counted as violations)" % (sorted(pr.timeouts)[:12], getattr(mod, "RUN_CAP_S", 90.0)))
     zero = [k for k in getattr(mod, "PROBES", []) if not probes.get(k)]
     if zero and tier == "thorough":
         print("warning: reach probes at zero: %s" % ", ".join(zero))
